@@ -8,7 +8,7 @@ set -euo pipefail
 REPO=${1:?repo}; OUT=${2:?outdir}; FEAT=${3:-}
 VERIF=$(cd "$(dirname "$0")/.." && pwd)
 DRV=$VERIF/axfacts/target/release/axfacts
-if [ ! -x "$DRV" ]; then
+if [ ! -x "$DRV" ] || [ "$VERIF/axfacts/src/main.rs" -nt "$DRV" ]; then
   (cd "$VERIF/axfacts" && CARGO_NET_OFFLINE=true cargo +nightly build --release --offline >&2)
 fi
 TGT=${AXV_TARGET_DIR:-$VERIF/.cache/target${FEAT:+-$FEAT}}
